@@ -1,4 +1,190 @@
+import Std.Data.HashMap
 import Model.Base.Proto
+import Model.Fmt.Reader
+import Model.Fmt.Files
+import Model.Spec.Format
 
-/-- stub: replaced when the property's driver is built -/
-def main : IO Unit := pure ()
+/-
+C02 driver.
+
+case <id> kind=r fn=<hex> text=<hex> nums=<tbl> tidy=<tbl> uni=<tbl> tag=…
+case <id> kind=f paths=<hexlist> stdin=0|1 labels=0|1 fsn=<hexlist> fsc=<hexlist> in=<hex> nums=… tidy=… uni=… tag=…
+  nums : field:atoi:atof,…    atoi ∈ i<dec> | s | r | o<hex>     atof ∈ f<16 hex> | s | r | o<hex>
+  tidy : bits:unit:tidybits:tidyunit,…
+  uni  : rune(hex):flags,…    flags bit0 = IsSpace, bit1 = IsUpper, bit2 = IsLower
+
+obs  <id> R f=<hex> l=<n> name=<hex> iters=<int> vals=<bits:unit:origbits:origunit,…> cfg=<k:v:F|I,…> map=<sorted>
+obs  <id> E f=<hex> l=<n> msg=<hex>
+obs  <id> U f=<hex> l=<n> unit=<hex> key=<hex> orig=<hex> val=<hex>
+obs  <id> end n=<records> failed=<hex|-> units=<sorted unit:key:orig:val:file:line,…>
+spec <id> …            the same lines without cfg= (configuration only as a map), from Spec.Format;
+                       the end line carries clone=ok and, for kind=f, distinct=1
+-/
+
+namespace Driver.C02
+open Proto Fmt
+
+def hexNat (s : String) : Option Nat :=
+  s.toList.foldl (fun acc c => match acc, Bytes.hexVal c with
+    | some a, some d => some (a * 16 + d)
+    | _, _ => none) (some 0)
+
+def hex64 (v : UInt64) : String :=
+  let n := v.toNat
+  String.ofList ((List.range 16).map fun i => Bytes.hexDigit ((n >>> (4 * (15 - i))) % 16))
+
+def missing : Bytes := Bytes.ofString "ORACLE-MISSING"
+
+def parseErr (s : String) : NumErr :=
+  if s == "s" then .syntax
+  else if s == "r" then .range
+  else .other ((Bytes.ofHex (s.drop 1).toString).getD missing)
+
+def parseInt (s : String) : Option Int :=
+  if s.startsWith "-" then (s.drop 1).toString.toNat?.map (fun n => -(Int.ofNat n))
+  else s.toNat?.map Int.ofNat
+
+structure Tables where
+  atoi : Std.HashMap String (Except NumErr Int) := {}
+  atof : Std.HashMap String (Except NumErr UInt64) := {}
+  tidy : Std.HashMap String (UInt64 × Bytes) := {}
+  uni : Std.HashMap Nat Nat := {}
+
+def entries (s : String) : List (List String) :=
+  if s == "-" || s == "" then [] else (s.splitOn ",").map (·.splitOn ":")
+
+def mkTables (l : Line) : Tables := Id.run do
+  let mut t : Tables := {}
+  for e in entries (l.getD "nums" "-") do
+    match e with
+    | [f, i, x] =>
+      let iv : Except NumErr Int :=
+        if i.startsWith "i" then
+          match parseInt (i.drop 1).toString with
+          | some v => .ok v
+          | none => .error (.other missing)
+        else .error (parseErr i)
+      let fv : Except NumErr UInt64 :=
+        if x.startsWith "f" then
+          match hexNat (x.drop 1).toString with
+          | some v => .ok (UInt64.ofNat v)
+          | none => .error (.other missing)
+        else .error (parseErr x)
+      t := { t with atoi := t.atoi.insert f iv, atof := t.atof.insert f fv }
+    | _ => pure ()
+  for e in entries (l.getD "tidy" "-") do
+    match e with
+    | [b, u, tb, tu] =>
+      match hexNat tb, Bytes.ofHex tu with
+      | some tbv, some tuv => t := { t with tidy := t.tidy.insert (b ++ ":" ++ u) (UInt64.ofNat tbv, tuv) }
+      | _, _ => pure ()
+    | _ => pure ()
+  for e in entries (l.getD "uni" "-") do
+    match e with
+    | [r, f] =>
+      match hexNat r, f.toNat? with
+      | some rv, some fv => t := { t with uni := t.uni.insert rv fv }
+      | _, _ => pure ()
+    | _ => pure ()
+  return t
+
+def mkOracles (t : Tables) : Oracles :=
+  let flag (bit : Nat) (r : Nat) : Bool := ((t.uni.getD r 0) >>> bit) % 2 == 1
+  { uc := { isSpace := flag 0, isUpper := flag 1, isLower := flag 2 }
+    atoi := fun f => (t.atoi.get? f.toHex).getD (.error (.other missing))
+    atof := fun f => (t.atof.get? f.toHex).getD (.error (.other missing))
+    tidy := fun v u => (t.tidy.get? (hex64 v ++ ":" ++ u.toHex)).getD (0, missing) }
+
+def sortStrings (l : List String) : List String := (l.toArray.qsort (· < ·)).toList
+
+def joinOr (l : List String) : String := if l.isEmpty then "-" else ",".intercalate l
+
+def showVals (vs : List Val) : String :=
+  joinOr (vs.map fun v => s!"{hex64 v.value}:{v.unit.toHex}:{hex64 v.origValue}:{v.origUnit.toHex}")
+
+def showCfgEntry (k v : Bytes) (file : Bool) : String :=
+  s!"{k.toHex}:{v.toHex}:{if file then "F" else "I"}"
+
+def showUnits (m : UnitMap) : String :=
+  joinOr (sortStrings (m.map fun u =>
+    s!"{u.unit.toHex}:{u.key.toHex}:{u.origUnit.toHex}:{u.value.toHex}:{u.fileName.toHex}:{u.line}"))
+
+def showErr (e : SyntaxErr) : String := s!"E f={e.fileName.toHex} l={e.line} msg={e.msg.toHex}"
+def showUnit (u : UnitMeta) : String :=
+  s!"U f={u.fileName.toHex} l={u.line} unit={u.unit.toHex} key={u.key.toHex} orig={u.origUnit.toHex} val={u.value.toHex}"
+
+def showRec : Rec → String
+  | .err e => showErr e
+  | .unit u => showUnit u
+  | .result r =>
+    let cfg := r.config.map fun c => showCfgEntry c.key c.value c.file
+    s!"R f={r.fileName.toHex} l={r.line} name={r.name.toHex} iters={r.iters} vals={showVals r.values} cfg={joinOr cfg} map={joinOr (sortStrings cfg)}"
+
+def showSRec : Spec.Format.SRec → String
+  | .err e => showErr e
+  | .unit u => showUnit u
+  | .result r =>
+    let cfg := r.config.map fun (k, v, f) => showCfgEntry k v f
+    s!"R f={r.fileName.toHex} l={r.line} name={r.name.toHex} iters={r.iters} vals={showVals r.values} map={joinOr (sortStrings cfg)}"
+
+/-- Successive `Scan`/`Result` calls on the queue model (I/O loop, hence in the driver). -/
+partial def drain (O : Oracles) (r : Reader) (acc : Array Rec) : Array Rec × Reader :=
+  let (r', ok) := r.scan O
+  if ok then
+    match r'.result with
+    | some rec => drain O r' (acc.push rec)
+    | none => (acc, r')
+  else (acc, r')
+
+def optHex : Option Bytes → String
+  | some b => if b.isEmpty then "00empty" else b.toHex
+  | none => "-"
+
+def handleReader (l : Line) (O : Oracles) : IO Unit := do
+  let fn := (l.bytes? "fn").getD []
+  let text := (l.bytes? "text").getD []
+  let (recs, r) := drain O (Reader.new text fn) #[]
+  for rec in recs do
+    IO.println s!"obs {l.id} {showRec rec}"
+  IO.println s!"obs {l.id} end n={recs.size} failed=- units={showUnits r.st.units}"
+  let (srecs, sunits) := Spec.Format.read O fn [] [] text
+  for rec in srecs do
+    IO.println s!"spec {l.id} {showSRec rec}"
+  IO.println s!"spec {l.id} end n={srecs.length} failed=- units={showUnits sunits} clone=ok"
+
+/-- N4: some input path is literally `q#<n>` for a path `q` that occurs unlabelled more than once. -/
+def isN4 (paths : List Bytes) (allowLabels : Bool) : Bool :=
+  let es := paths.map (Spec.Format.splitEntry allowLabels)
+  let unl := (es.filter (·.1.isNone)).map (·.2)
+  let dups := unl.filter (fun p => unl.count p > 1)
+  let labs := Spec.Format.labels paths allowLabels
+  let unlLabs := ((es.zip labs).filter (·.1.1.isNone)).map (·.2)
+  !dups.isEmpty && decide (unlLabs.eraseDups.length ≠ unlLabs.length)
+
+def handleFiles (l : Line) (O : Oracles) : IO Unit := do
+  let paths := (l.hexList? "paths").getD []
+  let allowStdin := l.getD "stdin" "0" == "1"
+  let allowLabels := l.getD "labels" "0" == "1"
+  let names := (l.hexList? "fsn").getD []
+  let contents := (l.hexList? "fsc").getD []
+  let fs : FS := { files := names.zip contents, stdin := (l.bytes? "in").getD [] }
+  let out := Files.run O fs paths allowStdin allowLabels
+  for rec in out.recs do
+    IO.println s!"obs {l.id} {showRec rec}"
+  IO.println s!"obs {l.id} end n={out.recs.length} failed={optHex out.failed} units={showUnits out.st.units}"
+  let sp := Spec.Format.readFiles O fs [] fs.stdin (Spec.Format.inputs paths allowStdin allowLabels)
+  for rec in sp.recs do
+    IO.println s!"spec {l.id} {showSRec rec}"
+  let kf := if isN4 paths allowLabels then " kf=N4" else ""
+  IO.println s!"spec {l.id} end n={sp.recs.length} failed={optHex sp.failed} units={showUnits sp.units} clone=ok distinct=1{kf}"
+
+def handle (l : Line) : IO Unit := do
+  if l.kind != "case" then return
+  let O := mkOracles (mkTables l)
+  if l.getD "kind" "r" == "f" then handleFiles l O else handleReader l O
+
+end Driver.C02
+
+def main : IO Unit := do
+  let stdin ← IO.getStdin
+  Proto.forEachLine stdin fun s => Driver.C02.handle (Proto.parseLine s)
